@@ -431,6 +431,18 @@ func c14ExecRun(t *rapid.T) {
 	mark := raceBegin()
 	err := sim.Run()
 	races, raceText := raceEnd(mark)
+	// a lock a task acquired and never released: every caller has returned, nobody is left to release it, and the
+	// next caller (this harness included) would block for ever. Released here so that the process can go on.
+	leaked := 0
+	if err == nil {
+		for _, l := range simrt.HeldLocks() {
+			leaked++
+			switch m := l.(type) {
+			case interface{ Unlock() }:
+				m.Unlock()
+			}
+		}
+	}
 	finalCache := map[string]*plush.Template{}
 	if cacheOn {
 		finalCache = plush.VerifCachedTemplates()
@@ -508,6 +520,10 @@ func c14ExecRun(t *rapid.T) {
 		default:
 			violate(t, "C14", "no-panic", "panic:"+scName, details(err.Error()))
 		}
+		return
+	}
+	if leaked > 0 {
+		violate(t, "C14", "no-deadlock", "lock-leaked:"+scName, details(fmt.Sprintf("%d lock(s) acquired by a caller were still held when every caller had returned: any further call that needs them blocks for ever", leaked)))
 		return
 	}
 	if races > 0 {
